@@ -424,5 +424,45 @@ def r03_5(ctx):
             ctx.ok(construct, m.loc(call), guards=sorted(map(str, gs)))
 
 
+def r03_6(ctx):
+    """R03.6 side results belong to one evaluator per type: Symbol.bool_value stores _write_to_conf only for BOOL symbols
+    (after the non-bool early return), Symbol.str_value only for defined non-bool symbols - otherwise evaluating a
+    non-bool symbol in a logical context clobbers the flag that its still-valid cached string value was computed with."""
+    repo = ctx.repo
+    for q, need, forbid in ((f"{CORE}:Symbol.bool_value", ("self.orig_type == BOOL", True), None),
+                            (f"{CORE}:Symbol.str_value", ("self.orig_type == BOOL", False), None)):
+        f = repo.func(q)
+        ctx.analysed(q)
+        fl = Flow(f.node, resolver=Resolver(f.node)).run()
+        sites = [n for n in ast.walk(f.node) if isinstance(n, ast.Assign) and any(ast.unparse(t) in ("self._write_to_conf", "self._has_active_indirect_set") for t in n.targets)]
+        if not sites:
+            raise AnchorError(f"{f.short}: no side-result stores")
+        bad = [n for n in sites if need not in (fl.guards_at(n) or set())]
+        construct = f"{f.short}/side results stored only for the types this evaluator owns"
+        if bad:
+            ctx.bad(construct, f"`{ast.unparse(bad[0])}` is reachable without {need[0]} being {need[1]}: the other evaluator's side result is overwritten while "
+                    "its cached value stays valid, so config_string changes with the read order", f.loc(bad[0]))
+        else:
+            ctx.ok(construct, f.loc(sites[0]), stores=len(sites))
+    # the marker is decided after the value in config_string (the callee reads the flag cold)
+    cs = repo.func(f"{CORE}:Symbol.config_string")
+    ctx.analysed(cs.qual)
+    res = Resolver(cs.node)
+    fl = Flow(cs.node, resolver=res, events=_warm_events(res)).run()
+    calls = [n for n in ast.walk(cs.node) if isinstance(n, ast.Call) and ast.unparse(n.func) == "self.has_active_default_value"]
+    construct = "Symbol.config_string/value evaluated before the default marker is decided"
+    if not calls:
+        ctx.bad(construct, "has_active_default_value() no longer consulted", cs.loc())
+    else:
+        evs = fl.events_at(calls[0]) or set()
+        (ctx.ok(construct, cs.loc(calls[0])) if "warm:self" in evs else
+         ctx.bad(construct, "has_active_default_value() (which reads _has_active_indirect_set) runs before self.str_value has been evaluated: after an "
+                 "invalidation the marker comes from the previous evaluation and two consecutive writes of one configuration differ", cs.loc(calls[0])))
+    # collectors use every component they unpack
+    from .common import collected_components
+    collected_components(ctx, [f"{CORE}:MenuNode.dependencies", f"{CORE}:MenuNode.referenced"], ("res.add", "res.update", "expr_items"),
+                         "the symbol is missing from the set that drives default resolution order / reference tracking")
+
+
 def rules():
-    return [("R03.1", r03_1, 14), ("R03.2", r03_2, 9), ("R03.3", r03_3, 7), ("R03.4", r03_4, 4), ("R03.5", r03_5, 8)]
+    return [("R03.1", r03_1, 14), ("R03.2", r03_2, 9), ("R03.3", r03_3, 7), ("R03.4", r03_4, 4), ("R03.5", r03_5, 8), ("R03.6", r03_6, 5)]
